@@ -353,7 +353,9 @@ def check_bin(r, b, tag):
         check_options(r, run_b, rsite, sfx)
 
     # R12.7
-    results.scan_results(r, b, prefix="R12.7" + sfx, only={run_b.name})
+    own = {n for n in b.reachable_from([run_b.name]) | {run_b.name} if n in b.bodies and
+           not (b.bodies.get(n.split("::{closure")[0], b.bodies[n]).span.get("exp") or b.bodies[n].span.get("exp"))}
+    results.scan_results(r, b, prefix="R12.7" + sfx, only=own)      # the driver and every helper of the program it reaches
 
     # R12.5 conversion tables
     check_tables(r, b, sfx)
